@@ -418,6 +418,173 @@ fn lz77_step_contract() {
     kani::cover!(r.is_ok() && num_decoded == LZ_BOUND as u32);
 }
 
+// ------------------------------------------------------------------------------------------------
+// cd2.*  LZ77 distance: special-distance table and the clamp  distance = min(distance, num_decoded, 2^20)
+// ------------------------------------------------------------------------------------------------
+// 18181-1 C.3.? (LZ77 branch of DecodeHybridVarLenUint), with d = ReadUint(dist config, token):
+//     if (dist_multiplier == 0)  distance = d + 1
+//     else if (d >= 120)         distance = d - 119
+//     else                       distance = max(1, kSpecialDistances[d][0] + dist_multiplier * kSpecialDistances[d][1])
+//     distance = min(distance, num_decoded, 1 << 20);   copy_pos = num_decoded - distance
+// The clamp is inline in read_varint_with_multiplier_clustered_lz77 and is immediately followed by
+// `window[copy_pos & 0xfffff]`, so the smallest real function containing it needs the window. What makes the whole
+// range of num_decoded affordable: the window is a CONCRETE zero-filled 2^20-entry Vec (a constant-size calloc; CBMC
+// keeps it as an array term) with ONE symbolic cell at a symbolic index, instead of 2^20 symbolic entries.
+// Both symbol reads and both hybrid-integer reads are stubbed by recording stubs with the assumed contracts
+// "arbitrary token or error" / "arbitrary u32" (proved by cd.read_uint_prefilled, cd.ans_step_*, cd.prefix_table_lookup).
+const K_SPECIAL_DISTANCES: [[i8; 2]; 120] = [
+    [0, 1], [1, 0], [1, 1], [-1, 1], [0, 2], [2, 0], [1, 2], [-1, 2], [2, 1], [-2, 1], [2, 2], [-2, 2], [0, 3], [3, 0], [1, 3],
+    [-1, 3], [3, 1], [-3, 1], [2, 3], [-2, 3], [3, 2], [-3, 2], [0, 4], [4, 0], [1, 4], [-1, 4], [4, 1], [-4, 1], [3, 3], [-3, 3],
+    [2, 4], [-2, 4], [4, 2], [-4, 2], [0, 5], [3, 4], [-3, 4], [4, 3], [-4, 3], [5, 0], [1, 5], [-1, 5], [5, 1], [-5, 1], [2, 5],
+    [-2, 5], [5, 2], [-5, 2], [4, 4], [-4, 4], [3, 5], [-3, 5], [5, 3], [-5, 3], [0, 6], [6, 0], [1, 6], [-1, 6], [6, 1], [-6, 1],
+    [2, 6], [-2, 6], [6, 2], [-6, 2], [4, 5], [-4, 5], [5, 4], [-5, 4], [3, 6], [-3, 6], [6, 3], [-6, 3], [0, 7], [7, 0], [1, 7],
+    [-1, 7], [5, 5], [-5, 5], [7, 1], [-7, 1], [4, 6], [-4, 6], [6, 4], [-6, 4], [2, 7], [-2, 7], [7, 2], [-7, 2], [3, 7], [-3, 7],
+    [7, 3], [-7, 3], [5, 6], [-5, 6], [6, 5], [-6, 5], [8, 0], [4, 7], [-4, 7], [7, 4], [-7, 4], [8, 1], [8, 2], [6, 6], [-6, 6],
+    [8, 3], [5, 7], [-5, 7], [7, 5], [-7, 5], [8, 4], [6, 7], [-6, 7], [7, 6], [-7, 6], [8, 5], [7, 7], [-7, 7], [8, 6], [8, 7],
+];
+
+/// Cross-check of the transcription above against the table's defining property (WebP lossless "distance map", which
+/// 18181-1 reuses): the 120 offsets (x, y) with 0 <= y <= 7, -7 <= x <= 8, (y > 0 or x > 0), ordered by increasing
+/// Euclidean norm, ties by decreasing y, then x > 0 before x < 0. A strictly increasing key over 120 members of a
+/// 120-element set makes the table unique.
+#[kani::proof]
+#[kani::unwind(121)]
+fn special_distances_table_is_the_distance_map() {
+    let key = |e: [i8; 2]| -> i32 {
+        let (x, y) = (e[0] as i32, e[1] as i32);
+        (x * x + y * y) * 64 + (7 - y) * 4 + if x < 0 { 1 } else { 0 }
+    };
+    let mut i = 0;
+    while i < 120 {
+        let [x, y] = K_SPECIAL_DISTANCES[i];
+        assert!(y >= 0 && y <= 7 && x >= -7 && x <= 8 && (y > 0 || x > 0), "[C04] special distance inside the 16 x 8 neighbourhood");
+        if i > 0 {
+            assert!(key(K_SPECIAL_DISTANCES[i - 1]) < key(K_SPECIAL_DISTANCES[i]), "[C04] special distances ordered by norm, then y descending, then sign");
+        }
+        i += 1;
+    }
+}
+
+fn spec_lz77_distance(d: u32, dist_multiplier: u32, num_decoded: u32) -> u32 {
+    let distance: i64 = if dist_multiplier == 0 {
+        d as i64 + 1
+    } else if d >= 120 {
+        d as i64 - 119
+    } else {
+        let [offset, dist] = K_SPECIAL_DISTANCES[d as usize];
+        (offset as i64 + dist_multiplier as i64 * dist as i64).max(1)
+    };
+    distance.min(num_decoded as i64).min(1 << 20) as u32
+}
+
+const LZC_BASE: u64 = 0x4c5a_434c_414d_0000;
+// [0] calls of read_uint_prefilled, [1] / [2] the values its 1st / 2nd call returned, [3] / [4] the tokens it was given,
+// [5] calls of read_symbol, [6] / [7] the tokens read_symbol returned
+static mut LZC: [u64; 8] = [LZC_BASE + 1, LZC_BASE + 2, LZC_BASE + 3, LZC_BASE + 4, LZC_BASE + 5, LZC_BASE + 6, LZC_BASE + 7, LZC_BASE + 8];
+
+fn rec_read_symbol(_c: &mut Coder, _bs: &mut Bitstream, _cluster: u8) -> CodingResult<u32> {
+    if kani::any() {
+        return Err(Error::InvalidAnsStream); // stands for "some error"; it is only propagated
+    }
+    let tok: u32 = kani::any();
+    kani::assume(tok <= u16::MAX as u32);
+    unsafe {
+        let n = LZC[5] as usize;
+        if n < 2 { LZC[6 + n] = tok as u64; }
+        LZC[5] += 1;
+    }
+    Ok(tok)
+}
+
+fn rec_read_uint(_s: &DecoderInner, _bs: &mut Bitstream, _c: &IntegerConfig, token: u32) -> u32 {
+    let v: u32 = kani::any();
+    unsafe {
+        let n = LZC[0] as usize;
+        if n < 2 { LZC[1 + n] = v as u64; LZC[3 + n] = token as u64; }
+        LZC[0] += 1;
+    }
+    v
+}
+
+fn lz77_distance_clamp(with_multiplier: bool) {
+    // every num_decoded: before the window is full (len == num_decoded), exactly full, and after wrap-around
+    let num_decoded: u32 = kani::any();
+    kani::assume(num_decoded >= 1 && num_decoded < u32::MAX);
+    let len = (num_decoded as usize).min(WINDOW);
+    // The allocation size is a symbolic value constrained to `len` ON PURPOSE: CBMC bit-blasts constant-size objects
+    // (4 MB: out of memory / stack overflow, measured) but handles objects of symbolic size with its array theory.
+    let alloc_len: usize = kani::any();
+    kani::assume(alloc_len == len);
+    let mut window = vec![0u32; alloc_len];
+    // one symbolic cell; every other entry is 0
+    let cell: usize = kani::any();
+    let cell_v: u32 = kani::any();
+    kani::assume(cell < len);
+    window[cell] = cell_v;
+    let copy_pos: u32 = kani::any();
+    let mut st = Lz77State { lz_len_conf: any_cfg(), window, num_to_copy: 0, copy_pos, num_decoded };
+    kani::assume(lz_inv(&st));
+    let min_symbol: u32 = kani::any();
+    let min_length: u32 = kani::any();
+    kani::assume(min_length >= 3 && min_length <= 9 + 255);
+    let dist_multiplier: u32 = kani::any();
+    kani::assume(dist_multiplier <= 306_783_377 && (dist_multiplier != 0) == with_multiplier);
+    let mut inner = DecoderInner { clusters: vec![0, 1], configs: vec![any_cfg(), any_cfg()], code: Coder::PrefixCode(Arc::new(Vec::new())) };
+    let cluster: u8 = kani::any();
+    kani::assume(cluster < 2);
+    unsafe { LZC = [0; 8]; }
+    let data = [0u8; 1];
+    let mut bs = Bitstream::new(&data);
+    let r = inner.read_varint_with_multiplier_clustered_lz77(&mut bs, cluster, dist_multiplier, &mut st, min_symbol, min_length);
+    let rec = unsafe { LZC };
+    if let Ok(v) = &r {
+        assert!(rec[5] >= 1 && rec[0] >= 1);
+        if rec[6] as u32 >= min_symbol {
+            // an LZ77 copy was started: length token, length, distance token, distance
+            assert!(rec[5] == 2 && rec[0] == 2, "[C04] an LZ77 symbol reads the length from its own token and then one distance symbol");
+            assert!(rec[3] as u32 == rec[6] as u32 - min_symbol && rec[4] == rec[7], "[C04] length token = token - min_symbol, distance token as read");
+            let distance = spec_lz77_distance(rec[2] as u32, dist_multiplier, num_decoded);
+            assert!(distance >= 1 && distance <= num_decoded && distance <= 1 << 20);
+            assert!(st.copy_pos == num_decoded - distance + 1,
+                "[C04] copy starts at num_decoded - min(distance, num_decoded, 2^20), distance from kSpecialDistances / d - 119 / d + 1");
+            assert!(rec[1] + min_length as u64 <= u32::MAX as u64 && st.num_to_copy as u64 == rec[1] + min_length as u64 - 1,
+                "[C04] num_to_copy = ReadUint(lz_len_conf, token - min_symbol) + min_length, one value delivered");
+            let src = ((num_decoded - distance) & 0xfffff) as usize;
+            assert!(*v == if src == cell { cell_v } else { 0 }, "[C04] the first copied value is window[(num_decoded - distance) mod 2^20]");
+        } else {
+            assert!(rec[5] == 1 && rec[0] == 1 && *v == rec[1] as u32 && rec[3] == rec[6], "[C04] a token below min_symbol is a literal hybrid integer");
+            assert!(st.num_to_copy == 0 && st.copy_pos == copy_pos, "[C04] a literal does not touch the copy state");
+        }
+        assert!(st.num_decoded == num_decoded + 1 && st.window[(num_decoded & 0xfffff) as usize] == *v && st.window.len() == (num_decoded as usize + 1).min(WINDOW),
+            "[C04] the value is appended to the 2^20-entry ring");
+    } else {
+        assert!(st.num_decoded == num_decoded && st.window.len() == len, "[C04] a failed step decodes nothing");
+    }
+    let lz = r.is_ok() && rec[5] == 2;
+    kani::cover!(lz && rec[2] >= 1 << 21 && num_decoded > 1 << 20);                            // clamped by the window size
+    kani::cover!(lz && rec[2] as u32 == u32::MAX);                                             // d + 1 must not wrap
+    kani::cover!(lz && rec[2] >= 200 && rec[2] < (1 << 20) - 1 && rec[2] as u32 - 119 > num_decoded);  // clamped by num_decoded
+    kani::cover!(lz && with_multiplier == (rec[2] < 120 && st.copy_pos + 1 < num_decoded));    // special distance (multiplier mode only)
+    kani::cover!(lz && with_multiplier == (rec[2] == 3 && dist_multiplier == 1));              // offset -1, dist 1: max(1, 0)
+    kani::cover!(lz && num_decoded == (1 << 20) && st.copy_pos == 1);                          // oldest entry of an exactly full window
+    kani::cover!(lz && num_decoded == (1 << 21) + 5);
+    kani::cover!(lz && (num_decoded as usize) < WINDOW);
+    kani::cover!(r.is_ok() && !lz);
+    kani::cover!(matches!(&r, Err(Error::InvalidLz77Symbol)));
+}
+
+#[kani::proof]
+#[kani::stub(Coder::read_symbol, rec_read_symbol)]
+#[kani::stub(DecoderInner::read_uint_prefilled, rec_read_uint)]
+#[kani::unwind(4)]
+fn lz77_distance_clamp_mult0() { lz77_distance_clamp(false); }
+
+#[kani::proof]
+#[kani::stub(Coder::read_symbol, rec_read_symbol)]
+#[kani::stub(DecoderInner::read_uint_prefilled, rec_read_uint)]
+#[kani::unwind(4)]
+fn lz77_distance_clamp_special() { lz77_distance_clamp(true); }
+
 #[kani::proof]
 fn canary() {
     let c = any_cfg();
